@@ -1,9 +1,10 @@
 """C20 — randomly generated arguments always inhabit the requested types (structural clauses)."""
 import re
 
-from facts import AnchorMissing, callee, calls, expr_path, lit_value, nodes, pat_head, pat_variants, peel, short, unblock, walk
-from shared import TI, Matrix, arm_rows, the_match, variant_paths
-from c18_util import (NON_LENGTHENING, ORDER_PRESERVING, ancestors, bind_names, chain_root, contains, is_try_return,
+from facts import AnchorMissing, callee, calls, expr_path, lit_value, nodes, pat_variants, peel, short, unblock, walk
+from shared import TI, Matrix, arm_rows, the_match
+from c18_util import (NON_LENGTHENING, ORDER_PRESERVING, PANIC_MACROS, ancestors, bind_names, chain_root, contains, diverges,
+                      is_panic_expr, is_try_return,
                       local_name, parent_map, resolve_scoped_try, scoped_let, show, untry, value_leaves)
 
 TITLE = ("C20: RandState::any panics for no TypeInner variant a checked signature can contain and every panic-capable "
@@ -15,37 +16,21 @@ RND = r"candid_parser::random::"
 IV = "candid::types::value::IDLValue::"
 IMPOSSIBLE = {"Knot", "Unknown", "Future", "Class"}
 UNSIGNED = {"usize", "u8", "u16", "u32", "u64", "u128"}
-PANIC_MACROS = {"unreachable", "unimplemented", "panic", "todo", "assert", "assert_eq", "assert_ne"}
 
 
 def ti_heads(row):
     return [h[0][len(TI):] for h in row["heads"] if isinstance(h[0], str) and h[0].startswith(TI)]
 
 
-def is_panic_expr(e):
-    e = unblock(e)
-    return isinstance(e, dict) and any(m in PANIC_MACROS for m in (e.get("mac") or []))
+def is_err_return(ret):
+    e = unblock(ret.get("e")) if isinstance(ret, dict) else None
+    return isinstance(e, dict) and e.get("k") == "call" and (callee(e) or "").endswith("Result::Err")
 
 
 def short_ty(t):
     t = re.sub(r"^&(mut )?", "", t or "?")
     t = re.sub(r"\b(?:[a-z_0-9]+::)+", "", t)
     return t
-
-
-def diverges(e):
-    e = unblock(e)
-    if not isinstance(e, dict):
-        return False
-    if e.get("k") in ("ret", "break", "continue") or is_panic_expr(e):
-        return True
-    if e.get("k") == "block":
-        sts = e.get("stmts") or []
-        last = e.get("e") or (sts[-1] if sts else None)
-        if isinstance(last, dict) and last.get("k") == "semi":
-            last = last["e"]
-        return diverges(last) if last is not None else False
-    return False
 
 
 def run(chk, facts, tier, only=None):
@@ -92,7 +77,6 @@ def run(chk, facts, tier, only=None):
                                 return True
             child = a
         # the local is bound by `let x = match .. { pat if *p > 0 => *p, _ => <diverge> }`
-        st = scoped_let(site if site.get("k") == "path" else operand, par, name) if True else None
         st = scoped_let(peel(operand), par, name)
         if st is not None and st.get("init") is not None:
             ini = unblock(st["init"])
@@ -207,7 +191,10 @@ def run(chk, facts, tier, only=None):
                         le = unblock(idx["a"])
                         if le.get("k") == "mcall" and le["m"] == "len" and local_name(le["recv"]) == base and base:
                             handled_sub.add(id(idx))
-                            chk.expect(nonempty_evidence(par, n, base), key_of("index-last", aty),
+                            root_, _u = chain_root(par, n["a"], NON_LENGTHENING - {"scan", "filter", "filter_map", "take", "skip",
+                                                                                    "take_while", "skip_while"})
+                            chk.expect(nonempty_evidence(par, n, base) or (root_ and root_ != base and nonempty_evidence(par, n, root_)),
+                                       key_of("index-last", aty),
                                        f"{g['key']}: `{show(n)}` takes the last element of a vector built from the caller's slice "
                                        f"with no emptiness test before it: for an empty slice `len() - 1` underflows (debug) / "
                                        f"indexes out of bounds (release). Reached from RandState::any for `variant {{}}` "
@@ -529,6 +516,35 @@ def run(chk, facts, tier, only=None):
                        ok_detail=f"{X} -> IDLValue::{sorted(ctors)}")
         chk.floor("constructor rows of RandState::any", n, 22)
 
+        def field_of(pat, e, depth=0):
+            """which component (`id` / `ty`) of the candid Field bound by `pat` the expression denotes: through a
+            `Field { id, ty }` pattern or through `<binder>.id` / `<binder>.ty`"""
+            x = unblock(e)
+            while isinstance(x, dict) and (x.get("k") == "ref" or (x.get("k") == "un" and x.get("op") == "Deref") or
+                                           (x.get("k") == "mcall" and x["m"] in ("clone", "as_ref", "deref", "to_owned", "borrow"))):
+                x = unblock(x.get("e") or x.get("a") or x.get("recv"))
+            if not isinstance(x, dict):
+                return None
+            if x.get("k") == "field" and local_name(x["e"]) in bind_names(pat) and "Field" in (x.get("bty") or ""):
+                return x["n"]
+            n_ = local_name(x)
+            if n_:
+                for p in walk(pat):
+                    if p.get("k") == "struct" and short((p.get("res") or {}).get("path")) == "Field":
+                        for fname_, sub in p.get("fields") or []:
+                            if n_ in bind_names(sub):
+                                return fname_
+                st_ = scoped_let(x, par, n_) if depth < 4 else None
+                if st_ is not None and st_.get("init") is not None and st_["pat"] is not pat:
+                    if st_["pat"].get("k") == "bind":
+                        return field_of(pat, st_["init"], depth + 1)
+                    ini_ = unblock(st_["init"])
+                    if st_["pat"].get("k") == "tuple" and ini_.get("k") == "tup" and len(ini_["es"]) == len(st_["pat"]["subs"]):
+                        for sub, comp in zip(st_["pat"]["subs"], ini_["es"]):
+                            if n_ in bind_names(sub):
+                                return field_of(pat, comp, depth + 1)
+            return None
+
         def arm(X):
             rows = [r for r in arm_rows(m) if ti_heads(r) == [X]]
             if len(rows) != 1:
@@ -571,6 +587,8 @@ def run(chk, facts, tier, only=None):
         rname = local_name(recs[0]["args"][0])
         muts = [x for x in walk(body) if x.get("k") == "mcall" and local_name(x["recv"]) == rname]
         pushes = [x for x in muts if x["m"] == "push"]
+        if not rname or not pushes:
+            raise AnchorMissing("RandState::any (Record arm): the field vector is no longer built by pushing into a local vector")
         only_push = bool(rname) and all(x["m"] in ("push", "len", "reserve", "capacity") for x in muts) and len(pushes) == 1
         loops = [x for x in nodes(body, "match") if x.get("src") == "ForLoopDesugar" and (callee(x["scrut"]) or "").endswith("into_iter")]
         okloop = False
@@ -582,18 +600,13 @@ def run(chk, facts, tier, only=None):
             nxt = [x for x in nodes(loops[0], "match") if x.get("src") == "ForLoopDesugar" and (callee(x["scrut"]) or "").endswith("Iterator::next")]
             if nxt:
                 some = [a for a in nxt[0]["arms"] if contains(a["body"], pushes[0])]
-                fpat = [p for p in walk(some[0]["pat"]) if p.get("k") == "struct" and short((p.get("res") or {}).get("path")) == "Field"] if some else []
-                if fpat:
-                    fl = dict(fpat[0]["fields"])
-                    b_id = (bind_names(fl.get("id")) or [None])[0]
-                    b_ty = (bind_names(fl.get("ty")) or [None])[0]
+                if some:
                     lit = untry(pushes[0]["args"][0])
                     if lit.get("k") == "struct" and short((lit.get("res") or {}).get("path")) == "IDLField":
                         lf = dict(lit["fields"])
-                        idsrc = local_name(lf.get("id"))
                         vs = resolve_scoped_try(par, lf.get("val"))
-                        okfield = idsrc == b_id and bool(vs) and all(v.get("k") == "mcall" and v["m"] == "any" and local_name(v["args"][1]) == b_ty
-                                                                      for v in vs)
+                        okfield = field_of(some[0]["pat"], lf.get("id")) == "id" and bool(vs) and \
+                            all(v.get("k") == "mcall" and v["m"] == "any" and field_of(some[0]["pat"], v["args"][1]) == "ty" for v in vs)
         chk.expect(okloop, "shape:Record:field-order",
                    f"RandState::any: the record value must be built by one loop over the type's own field list `{b}` in its order "
                    f"(adaptors used: {used}), pushing one field per iteration and nothing else touching the vector; a different order "
@@ -616,24 +629,28 @@ def run(chk, facts, tier, only=None):
             while ixe.get("k") == "cast":
                 ixe = ixe["e"]
             ixn = local_name(ixe)
-            fsrc = resolve_scoped_try(par, peel(vv[0]["args"][0]) if local_name(vv[0]["args"][0]) is None else vv[0]["args"][0])
             boxed = [x for x in walk(vv[0]["args"][0]) if x.get("k") == "path" and (x.get("res") or {}).get("kind") == "Local"]
-            fsrc = resolve_scoped_try(par, boxed[0]) if boxed else []
-            lets = [s for s in nodes(body, "slet") if s["pat"].get("k") == "struct" and short((s["pat"].get("res") or {}).get("path")) == "Field"
-                    and s.get("init")]
+            fsrc = resolve_scoped_try(par, boxed[0]) if boxed else [f for f in nodes(vv[0]["args"][0], "struct")]
+
+            def strip_ref(e):
+                e = unblock(e)
+                while isinstance(e, dict) and e.get("k") == "ref":
+                    e = unblock(e["e"])
+                return e
+            lets = [s_ for s_ in nodes(body, "slet") if s_.get("init") and strip_ref(s_["init"]).get("k") == "index"
+                    and local_name(strip_ref(s_["init"])["a"]) == b]
+            if not lets:
+                raise AnchorMissing("RandState::any (Variant arm): `let <field> = &fs[<index>]` not found")
             if len(lets) == 1 and fsrc and all(f.get("k") == "struct" for f in fsrc):
-                ini = lets[0]["init"]
-                while ini.get("k") == "ref":
-                    ini = ini["e"]
-                fl = dict(lets[0]["pat"]["fields"])
-                b_id = (bind_names(fl.get("id")) or [None])[0]
-                b_ty = (bind_names(fl.get("ty")) or [None])[0]
-                same_ix = ini.get("k") == "index" and local_name(ini["a"]) == b and local_name(ini["b"]) == ixn and ixn
+                ini = strip_ref(lets[0]["init"])
+                pat = lets[0]["pat"]
+                same_ix = local_name(ini["b"]) == ixn and ixn
                 lf = dict(fsrc[0]["fields"])
                 vals = resolve_scoped_try(par, lf.get("val"))
-                okvar = bool(same_ix) and local_name(lf.get("id")) == b_id and bool(vals) and \
-                    all(v.get("k") == "mcall" and v["m"] == "any" and local_name(v["args"][1]) == b_ty for v in vals)
-                detail = f"index stored: {ixn}; field taken from {show(ini)}; label from `{local_name(lf.get('id'))}`; payload type `{[show(v['args'][1]) for v in vals if v.get('k') == 'mcall']}`"
+                okvar = bool(same_ix) and field_of(pat, lf.get("id")) == "id" and bool(vals) and \
+                    all(v.get("k") == "mcall" and v["m"] == "any" and field_of(pat, v["args"][1]) == "ty" for v in vals)
+                detail = (f"index stored: {ixn}; field taken from {show(ini)}; label from `{show(lf.get('id'))}`; payload type "
+                          f"`{[show(v['args'][1]) for v in vals if v.get('k') == 'mcall']}`")
         chk.expect(okvar, "shape:Variant:index-label-payload",
                    f"RandState::any: VariantValue(field, i) must store the chosen index i, the label of {b}[i] and a payload generated at "
                    f"{b}[i].ty ({detail})", ok_detail=detail)
@@ -766,7 +783,7 @@ def run(chk, facts, tier, only=None):
                     if x.get("k") in ("break", "continue") and "~ForLoop" not in (x.get("mac") or []):
                         okexits = False
                         why = f"`{x['k']}` between push and pop"
-                    if x.get("k") == "ret" and not is_try_return(x):
+                    if x.get("k") == "ret" and not is_try_return(x) and not is_err_return(x):
                         # must be preceded, in its own block, by a pop of the same backup with the same element
                         b2 = par.get(id(x))
                         while b2 is not None and b2.get("k") != "block":
